@@ -85,8 +85,11 @@ func layout(r *vk.RNG, toks []tok, style int) string {
 				if (isBracket(prev.s) || isBracket(t.s)) && r.Chance(1, 3) && !(prev.kind == tkFunc && t.s != "(") {
 					sep = ""
 				}
-				if prev.kind != tkFunc && (prev.kind == tkStr || prev.s == ")" || prev.s == "}" || prev.s == "]" || prev.s == ",") && r.Chance(1, 6) {
-					sep = " # " + vk.Pick(r, []string{"comment", "{job=\"x\"} |= \"not code\"", "", "sum by (a)"}) + "\n"
+				// a comment is as insignificant as a blank: after ANY token, also between a function name and its parenthesis
+				// and after a label that is named like a function; its text is free (quotes, back quotes, /*, odd numbers)
+				if r.Chance(1, 6) {
+					sep = " # " + vk.Pick(r, []string{"comment", "{job=\"x\"} |= \"not code\"", "", "sum by (a)",
+						"don't", "that's \"it", "a ` back quote", "/* not C", "08 1e 0x", "(", "by", "without (", "it''s", "ünï", "`x` `"}) + "\n"
 					if r.Chance(1, 3) {
 						sep = vk.Pick(r, []string{" #\n", "#\n", "\n#\n", " #\n#\n", " #\r\n"}) // empty comments
 					}
